@@ -157,7 +157,16 @@ def main(argv=None):
         bounds += mres["bounds"]
         assumptions += mres["assumptions"]
         noverdict += mres["noverdict"]
+        native_note = None
         for (component, label, replay_path) in mres["violations"]:
+            if prop == "C13" and "persistent staleness" in label:
+                # the canonical schedule of this class (an invalidation that lands while a reader's Clone is
+                # in progress inside initialize) can be driven through the public API of the real crate
+                if native_note is None:
+                    native_note = native_region_cached_stale()
+                    if native_note.startswith("reproduced"):
+                        totals["traces_validated"] += 1
+                label = "%s (%s)" % (label, native_note)
             k = match_known(known, prop, component, label)
             if k:
                 known_hits.append((k, component, label))
@@ -244,6 +253,36 @@ def main(argv=None):
         return 2
     print("OK property=%s tier=%s harnesses=%d queries=%d wall=%.0fs" % (prop, args.tier, totals["harnesses"], totals["queries"], wall))
     return 0
+
+
+def native_region_cached_stale():
+    """Runs native/region_cached_stale against the repository under test (dev profile). Information only:
+    a model schedule of another shape does not have to be reachable by this one driver."""
+    import shutil
+    import subprocess
+    repo = os.environ.get("FOLO_REPO", "/repo")
+    src = os.path.join(VERIF, "native", "region_cached_stale")
+    cache = os.environ.get("FOLO_VERIF_CACHE") or os.path.join(VERIF, ".cache")
+    work = os.path.join(cache, "native_src", "region_cached_stale")
+    try:
+        shutil.rmtree(work, ignore_errors=True)
+        shutil.copytree(src, work, ignore=shutil.ignore_patterns("target", "Cargo.lock"))
+        ct = os.path.join(work, "Cargo.toml")
+        txt = open(ct).read().replace('"/repo/packages/', '"%s/packages/' % repo)
+        open(ct, "w").write(txt)
+        shutil.copyfile(os.path.join(repo, "Cargo.lock"), os.path.join(work, "Cargo.lock"))
+        env = dict(os.environ, CARGO_NET_OFFLINE="true")
+        env.pop("RUSTFLAGS", None)
+        p = subprocess.run(["cargo", "run", "-q", "--offline", "--target-dir", os.path.join(cache, "native", "region_cached_stale")],
+                           cwd=work, env=env, capture_output=True, text=True, timeout=900)
+    except Exception as e:  # noqa: BLE001
+        return "native replay not run: %s" % str(e)[:120]
+    line = (p.stdout.strip().splitlines() or [""])[0]
+    if p.returncode == 1:
+        return "reproduced natively through the public API: %s" % line
+    if p.returncode == 0:
+        return "the Clone-parking native replay does not reproduce this schedule: %s" % line
+    return "native replay inconclusive (rc=%s)" % p.returncode
 
 
 def run_mirsym(mod, extra=()):
